@@ -231,8 +231,9 @@ func GenerateRoutes(
 	logger.Debug("Formatting %d bytes of output code", len(result))
 	formattedOutput, err := compilation.OptimizeImportsAndFormat(result)
 	if err != nil {
-		logger.Warn("Could not format output - %v", err)
-		formattedOutput = result
+		// Code that cannot be formatted is not valid Go - fail rather than hand the user a routes file that cannot compile
+		logger.Fatal("Could not format the generated routing code - %v", err)
+		return fmt.Errorf("the generated routing code is not valid Go and was not written - %w", err)
 	}
 
 	err = os.MkdirAll(filepath.Dir(args.OutputPath), 0755)
